@@ -34,7 +34,7 @@ def _decode(b):
                 in_thread=[b['got'][0], b['got'][1], f(b['got'][2]), f(b['got'][3])])
 
 
-def run_one(mon, req, strings, threads, calls, yld, env, seed, ref=None, first=-1):
+def run_one(mon, req, strings, threads, calls, yld, env, seed, ref=None, first=-1, fileeps=0):
     d = tempfile.mkdtemp(prefix='xv-thr-')
     try:
         rq, st, rep = [os.path.join(d, x) for x in ('req', 'str', 'rep')]
@@ -53,7 +53,7 @@ def run_one(mon, req, strings, threads, calls, yld, env, seed, ref=None, first=-
         e['TSAN_OPTIONS'] = 'halt_on_error=0:exitcode=66:second_deadlock_stack=1:history_size=4:log_path=' + os.path.join(d, 'tsan')
         e.update(env)
         try:
-            p = subprocess.run([mon, 'run', rq, st, rep] + extra + ['--threads', str(threads), '--calls', str(calls), '--yield', str(yld)],
+            p = subprocess.run([mon, 'run', rq, st, rep] + extra + ['--threads', str(threads), '--calls', str(calls), '--yield', str(yld), '--fileeps', str(fileeps)],
                                env=e, stdout=subprocess.PIPE, stderr=subprocess.STDOUT, timeout=3600)
         except subprocess.TimeoutExpired:
             return dict(watchdog=True)
@@ -127,7 +127,9 @@ def main(tier):
             Q = Q[sel]
             ref = execlib.Res(ref.raw[sel], ref.msgs)
         # every second run starts cold (first library calls of the process are concurrent; reference from another process)
-        return job, run_one(mons[(cfg, fl)], Q, S, th, calls, yld, env, ck.seed * 1000 + i, ref=ref if i % 2 else None)
+        # second phase of every run: thread-private crystal arrays filled from files (Crystal_ReadFile), digests against serial ones
+        feps = (150 if fl == 'tsan' else 2500) if tier == 'quick' else (400 if fl == 'tsan' else 8000)
+        return job, run_one(mons[(cfg, fl)], Q, S, th, calls, yld, env, ck.seed * 1000 + i, ref=ref if i % 2 else None, fileeps=feps)
     # TSan runs are CPU heavy (8-16 threads each): a few at a time
     with ThreadPoolExecutor(3) as ex:
         results = list(ex.map(go, list(enumerate(plan))))
@@ -173,6 +175,10 @@ def main(tier):
             for fn in fns or ['?']:
                 ck.violation('c17:result-differs-from-serial:%s' % fn, '%d results in threads differ from the serial reference' % rep['mismatches'],
                              dict(where, examples=[_decode(b) for b in rep['bad'][:3]]))
+        if rep.get('file_mismatches'):
+            ck.violation('c17:private-crystal-file-read-differs-from-serial', '%d of %d Crystal_ReadFile episodes on thread-private arrays differ from the serial digest (last: file %d)' % (
+                rep['file_mismatches'], rep['file_episodes'], rep['file_bad']), where)
+        tot['file_episodes'] = tot.get('file_episodes', 0) + rep.get('file_episodes', 0)
         tot['runs'] += 1; tot['cold'] = tot.get('cold', 0) + rep.get('cold', 0); tot['calls'] += rep['calls']; tot['events'] += rep['hook_events']; tot['yields'] += rep['yields']
         tot['failing'] += rep['failing_calls']; tot['errapi'] += rep['error_api_uses']
         for k in range(5):
@@ -190,5 +196,5 @@ def main(tier):
                     'distinct = distinct overlap signatures (region entered x set of regions other threads were inside) observed through the hooks',
                samples=samples, runs=tot['runs'], cold_start_runs=tot.get('cold', 0), first_use_runs_one_per_entry_point=tot.get('first_use_runs', 0), hook_events=tot['events'], injected_yields=tot['yields'],
                region_entries=dict(zip(REGION, tot['enter'])), entries_while_other_threads_inside=dict(zip(REGION, tot['overlap'])),
-               overlap_signatures=tot['sigs'], failing_calls=tot['failing'], error_api_uses=tot['errapi'])
+               private_crystal_file_episodes=tot.get('file_episodes', 0), overlap_signatures=tot['sigs'], failing_calls=tot['failing'], error_api_uses=tot['errapi'])
     return ck.finish(cov, ['TSan sees only instrumented code and intercepted libc calls', 'no thread mutates a shared crystal collection (documented exception)'])
